@@ -330,7 +330,7 @@ namespace cs
                     violate("C20,C11", "memory_leaked", "%s: the block obtained for the object was not given back",
                             what);
                 if (oom && fits && !(k >= 1 && k <= constructions))
-                    violate("C11", "spurious_out_of_memory", "%s: out_of_fixed_memory although the additional "
+                    violate("C11,C03", "spurious_out_of_memory", "%s: out_of_fixed_memory although the additional "
                                                              "size is sufficient",
                             what);
                 if (injected)
@@ -340,7 +340,7 @@ namespace cs
                 return false;
             }
             if (!fits)
-                violate("C11", "overrun_accepted", "%s: the members need more than the additional size, yet "
+                violate("C11,C03", "overrun_accepted", "%s: the members need more than the additional size, yet "
                                                    "creation succeeded",
                         what);
             if (k >= 1 && k <= constructions)
@@ -695,7 +695,7 @@ namespace cs
                         }
                         catch (const fm::out_of_fixed_memory&)
                         {
-                            violate("C11", "spurious_out_of_memory", "clone_joint (allocator by const reference) of an "
+                            violate("C11,C03", "spurious_out_of_memory", "clone_joint (allocator by const reference) of an "
                                                                      "object that uses %zu of %zu additional bytes "
                                                                      "threw out_of_fixed_memory",
                                     used, add);
@@ -790,7 +790,7 @@ namespace cs
                         }
                         catch (const fm::out_of_fixed_memory&)
                         {
-                            violate("C11", "spurious_out_of_memory", "containers with joint_allocator in 4096 "
+                            violate("C11,C03", "spurious_out_of_memory", "containers with joint_allocator in 4096 "
                                                                      "bytes of joint memory");
                         }
                         ++c.cases;
@@ -862,7 +862,7 @@ namespace cs
                     if (oom)
                     {
                         if (fits)
-                            violate("C11", "spurious_out_of_memory", "vector/string with joint_allocator: "
+                            violate("C11,C03", "spurious_out_of_memory", "vector/string with joint_allocator: "
                                                                      "out_of_fixed_memory with %ld additional "
                                                                      "bytes, %zu needed",
                                     add, need);
@@ -872,7 +872,7 @@ namespace cs
                         continue;
                     }
                     if (!may)
-                        violate("C11", "overrun_accepted", "containers with joint_allocator got %zu bytes out of "
+                        violate("C11,C03", "overrun_accepted", "containers with joint_allocator got %zu bytes out of "
                                                            "%ld additional",
                                 need, add);
                     auto& o2 = **sp;
